@@ -1,0 +1,5 @@
+//go:build !verif
+
+package timed
+
+func verifYield(string, any, any) {}
